@@ -117,6 +117,14 @@ size_t sim_alloc_peak_bytes(void);
 long   sim_alloc_live_blocks(void);
 const char* sim_alloc_check(void);           /* NULL ok, else description (canary smashed, bad free, ...) */
 void   sim_alloc_describe_live(char* buf, size_t n);
+/* guarded hooks in /repo (lib/common/zstd_verif.h): probes, decoder-variant coins, index jump */
+void   sim_hooks_reset(uint64_t seed);
+long   sim_hook_probe_count(int id);      /* ZSTD_VP_* hits in this run */
+void   sim_hook_probe_clear(int id);
+size_t sim_hook_probe_value(int id);      /* last value reported by ZSTD_VERIF_PROBE_VAL */
+void   sim_hook_set_coin(int site, int per1024);   /* ZSTD_VC_* */
+long   sim_hook_coin_fired(int site);
+void   sim_hook_set_index_jump(size_t bytes);      /* applied at the next frame start that continues its index */
 /* libc allocator seam (--wrap): armed only around the call under test */
 void   sim_wrap_arm(long fail1, long fail2);
 void   sim_wrap_disarm(void);
